@@ -269,3 +269,121 @@ theorem decLoop_frames (ps : List Packet) : ∀ (p : Packet), (∀ q ∈ ps, q.V
     rw [ih q (fun r hr => hv r (by simp [hr]))]
 
 end Cell2v.Codec
+
+namespace Cell2v.Codec
+
+/-- routes pairwise different, codes pairwise different, codes are uint16 -/
+def DictWF (d : Dict) : Prop :=
+  (d.map (·.1)).Nodup ∧ (d.map (·.2)).Nodup ∧ ∀ e ∈ d, e.2 < 65536
+
+theorem dictWF_nil : DictWF [] := by simp [DictWF]
+
+theorem any_route_false (d : Dict) (r : Bytes) (h : d.any (fun e => e.1 == r) = false) : r ∉ d.map (·.1) := by
+  intro hm
+  simp only [List.mem_map] at hm
+  obtain ⟨e, he, rfl⟩ := hm
+  have : d.any (fun x => x.1 == e.1) = true := List.any_eq_true.mpr ⟨e, he, by simp⟩
+  rw [h] at this; cases this
+
+theorem any_code_false (d : Dict) (c : Nat) (h : d.any (fun e => e.2 == c) = false) : c ∉ d.map (·.2) := by
+  intro hm
+  simp only [List.mem_map] at hm
+  obtain ⟨e, he, rfl⟩ := hm
+  have : d.any (fun x => x.2 == e.2) = true := List.any_eq_true.mpr ⟨e, he, by simp⟩
+  rw [h] at this; cases this
+
+theorem add1_wf (d d' : Dict) (r : Bytes) (c : Nat) (hw : DictWF d) (hc : c < 65536)
+    (h : d.add1 r c = some d') : DictWF d' := by
+  unfold Dict.add1 at h
+  split at h
+  · cases h
+  · split at h
+    · cases h
+    · rename_i h1 h2
+      cases h
+      obtain ⟨w1, w2, w3⟩ := hw
+      have n1 := any_route_false d r (Bool.eq_false_iff.mpr h1)
+      have n2 := any_code_false d c (Bool.eq_false_iff.mpr h2)
+      refine ⟨?_, ?_, ?_⟩
+      · rw [List.map_append, List.nodup_append]
+        refine ⟨w1, by simp, ?_⟩
+        intro a ha b hb
+        simp at hb; subst hb
+        intro e; subst e; exact n1 ha
+      · rw [List.map_append, List.nodup_append]
+        refine ⟨w2, by simp, ?_⟩
+        intro a ha b hb
+        simp at hb; subst hb
+        intro e; subst e; exact n2 ha
+      · intro e he
+        simp at he
+        rcases he with he | he
+        · exact w3 e he
+        · subst he; exact hc
+
+theorem setDictionary_wf (trim : Bytes → Bytes) (es : List (Bytes × Nat)) : ∀ (d : Dict), DictWF d →
+    (∀ e ∈ es, e.2 < 65536) → DictWF (setDictionary trim d es).1 := by
+  induction es with
+  | nil => intro d hw _; simpa [setDictionary] using hw
+  | cons e es ih =>
+    intro d hw hc
+    obtain ⟨r, c⟩ := e
+    simp only [setDictionary]
+    cases h : d.add1 (trim r) c with
+    | none => exact hw
+    | some d' =>
+      simp only
+      exact ih d' (add1_wf d d' _ c hw (hc (r, c) (by simp)) h) (fun e he => hc e (by simp [he]))
+
+theorem nodup_map_inj {α β : Type} (l : List α) (f : α → β) (h : (l.map f).Nodup) :
+    ∀ a b, a ∈ l → b ∈ l → f a = f b → a = b := by
+  induction l with
+  | nil => intro a b ha; cases ha
+  | cons x xs ih =>
+    intro a b ha hb hab
+    simp only [List.map_cons, List.nodup_cons] at h
+    obtain ⟨hx, hxs⟩ := h
+    simp only [List.mem_cons] at ha hb
+    rcases ha with rfl | ha <;> rcases hb with rfl | hb
+    · rfl
+    · exfalso; apply hx; rw [hab]; exact List.mem_map_of_mem hb
+    · exfalso; apply hx; rw [← hab]; exact List.mem_map_of_mem ha
+    · exact ih hxs a b ha hb hab
+
+theorem setDictionary_calls_wf (trim : Bytes → Bytes) (calls : List (List (Bytes × Nat))) :
+    ∀ (d0 : Dict), DictWF d0 → (∀ es ∈ calls, ∀ e ∈ es, e.2 < 65536) →
+    DictWF (calls.foldl (fun d es => (setDictionary trim d es).1) d0) := by
+  induction calls with
+  | nil => intro d0 h0 _; simpa using h0
+  | cons es rest ih =>
+    intro d0 h0 hc
+    simp only [List.foldl_cons]
+    exact ih _ (setDictionary_wf trim es d0 h0 (hc es (by simp))) (fun es' hes => hc es' (by simp [hes]))
+
+/-- in a well-formed dictionary the two maps are mutually inverse -/
+theorem dict_routes_codes (d : Dict) (hw : DictWF d) (r : Bytes) (c : Nat) (h : d.routes r = some c) :
+    d.codes c = some r ∧ c < 65536 := by
+  obtain ⟨w1, w2, w3⟩ := hw
+  unfold Dict.routes at h
+  cases hf : d.find? (fun e => e.1 == r) with
+  | none => simp [hf] at h
+  | some e =>
+    simp [hf] at h
+    have hm := List.mem_of_find?_eq_some hf
+    have hr : e.1 = r := by simpa using List.find?_some hf
+    subst h
+    refine ⟨?_, w3 e hm⟩
+    unfold Dict.codes
+    cases hg : d.find? (fun x => x.2 == e.2) with
+    | none =>
+      have := List.find?_eq_none.mp hg e hm
+      simp at this
+    | some e' =>
+      have hm' := List.mem_of_find?_eq_some hg
+      have hc' : e'.2 = e.2 := by simpa using List.find?_some hg
+      -- codes are pairwise different, so e' = e
+      have : e' = e := nodup_map_inj d (·.2) w2 e' e hm' hm hc'
+      subst this
+      simp [hr]
+
+end Cell2v.Codec
